@@ -10,6 +10,8 @@ import (
 	"strconv"
 	"strings"
 	"sync"
+	"verif/harness/core"
+	"verif/harness/env"
 )
 
 // repoDictionary returns the string literals of the library's (non-test) source, the way a fuzzer
@@ -119,4 +121,11 @@ func dictHeaders() map[string]string {
 		}
 	}
 	return out
+}
+
+// withUnaskedNames makes every request of the environment carry parameters and headers nobody asked for, named after
+// every name the library's source mentions (a switch hidden behind such a name must not change what is refused).
+func withUnaskedNames(e *env.Env, r *core.Run) {
+	e.ExtraQuery, e.ExtraHeaders = dictQuery(protocolParams...), dictHeaders()
+	r.Count("cases_with_unasked_parameter_and_header_names", 1)
 }
